@@ -53,3 +53,15 @@ let outcome_string = function
   | Chain.ErrNoTip -> "EC"
 
 let work_of (h : Store.src) = Work.calc_work h.Store.s_pl.Store.p_bits
+
+(* parse "id:prev:height:workhex:cumhex:st,..." (rowid order) back into a store (newest first) *)
+let st_of_letter = function "L" -> Store.Longest | "S" -> Store.Stale | "O" -> Store.Orphan | x -> failwith ("bad state " ^ x)
+let dummy_pl : Store.payload = payload_of "0" "0" "0" "0" "0"
+let parse_rows (s : string) : Store.store =
+  if s = "" then [] else
+    Stdlib.List.rev (Stdlib.List.map (fun r ->
+        match split_on ':' r with
+        | i :: p :: h :: w :: c :: st :: _ ->
+          { Store.id = n_of_string i; prev = (if p = "-1" then n_of_string "999999999" else n_of_string p); height = z_of_string h;
+            work = z_of_hex w; cum = z_of_hex c; orph = (st = "O"); st = st_of_letter st; pl = dummy_pl }
+        | _ -> failwith ("bad row " ^ r)) (split_on ',' s))
